@@ -5971,6 +5971,9 @@ class PyCdlib:
         if mac and num_efi_entries < 2:
             raise pycdlibexception.PyCdlibInvalidInput('Mac isohybrid support needs two El Torito entries for the EFI platform (add_eltorito with efi=True)')
 
+        if part_entry < 1 or part_entry > 4:
+            raise pycdlibexception.PyCdlibInvalidInput('The partition entry can only be between 1 and 4, inclusive')
+
         if part_type is None:
             part_type = 0x17
             if mac or efi:
